@@ -336,10 +336,14 @@ class PathEnum:
                     if q.exit is not None:
                         out.append((q, None))
                     elif ret is None:
+                        q.ev.append(Ev('truth', test, fr, False))
                         out.append((q, False))
                     else:
                         # evaluate the returned expression as a condition in the callee frame
-                        out += self.cond_paths(ret, q, rfr)
+                        for r, t in self.cond_paths(ret, q, rfr):
+                            if t is not None:
+                                r.ev.append(Ev('truth', test, fr, t))
+                            out.append((r, t))
                 return out
         out = []
         q = p.fork()
@@ -354,10 +358,32 @@ class PathEnum:
         """evaluate an expression in statement position -> list of (path, retnode, retframe)"""
         if isinstance(value, ast.Await):
             value = value.value
+        if isinstance(value, ast.IfExp):
+            cv = self.const_of(value.test, p, fr)
+            if cv is not _UNKNOWN:
+                return self.value_paths(value.body if cv else value.orelse, p, fr)
         if isinstance(value, ast.Call):
             inl = self._inline(value, p, fr)
             if inl is not None:
                 return inl
+            # an argument that is itself an inlinable call: evaluate it first into a temporary
+            for ai, a in enumerate(value.args):
+                if isinstance(a, ast.Call) and self.resolver(a, fr, p) is not None and fr.depth < self.max_depth:
+                    outs = []
+                    for q, ret, rfr in self._inline(a, p, fr):
+                        if q.exit is not None:
+                            outs.append((q, _UNKNOWN, fr))
+                            continue
+                        tmp = '__arg%d_%d' % (len(q.ev), ai)
+                        tn = ast.Name(id=tmp, ctx=ast.Store())
+                        asg = ast.Assign(targets=[tn], value=a)
+                        ast.copy_location(asg, value)
+                        q.ev.append(Ev('assign', asg, fr, tn, (ret, rfr)))
+                        v2 = ast.Call(func=value.func, args=list(value.args), keywords=value.keywords)
+                        v2.args[ai] = ast.Name(id=tmp, ctx=ast.Load())
+                        ast.copy_location(v2, value)
+                        outs += self.value_paths(v2, q, fr)
+                    return outs
         q = p.fork()
         excs = self._note_calls(value, q, fr)
         return [(q, value, fr)] + [(x, _UNKNOWN, fr) for x in excs]
